@@ -79,6 +79,176 @@ DATE = Contract(
 )
 
 
+# --------------------------------------------------------------------------- body accessors: json / form / url
+WRQ = "baize/wsgi/requests.py"
+ARQ = "baize/asgi/requests.py"
+CT_T = ObjT("ContentType", type=Str, options=ObjT("Options"))
+
+
+def ct_compare(a, b, op):
+    """ContentType.__eq__(str): compares the media type (baize/datastructures.py ContentType.__eq__, 3 lines; modelled)"""
+    import ast as _ast
+    if isinstance(a, VRef) and isinstance(b, VStr) and isinstance(op, (_ast.Eq, _ast.NotEq)):
+        def cmp(ev, x, y):
+            o = ev.st.obj(x)
+            if isinstance(o, Obj) and o.cls == "ContentType":
+                e = o.fields["type"].t == y.t
+                return e if isinstance(op, _ast.Eq) else z3.Not(e)
+            raise Unsupported("comparison of %r with a string" % (o,))
+        return cmp
+    return None
+
+
+def options_get(ev, recv, args, kwargs, node):
+    """options.get(name, default): whatever the client put into the Content-Type parameters (any Latin-1 string)"""
+    st = ev.st
+    if st.choose([z3.BoolVal(True)] * 2, force_record=True) == 0:
+        return args[1] if len(args) > 1 else NONE
+    v = st.fresh(Str, "option")
+    st.assume(z3.InRe(v.t, z3.Star(z3.Range(chr(0), chr(255)))))
+    return v
+
+
+options_get.mods = ()
+options_get.mutates_recv = False
+
+
+def options_contains(ev, recv, args, kwargs, node):
+    return VBool(z3.Bool(ev.st.run.fresh_name("options.has")))
+
+
+options_contains.mods = ()
+options_contains.mutates_recv = False
+
+
+def options_getitem(ev, recv, args, kwargs, node):
+    v = ev.st.fresh(Str, "option")
+    ev.st.assume(z3.InRe(v.t, z3.Star(z3.Range(chr(0), chr(255)))))   # header text is Latin-1 (A-wsgi-1 / A-asgi-1)
+    return v
+
+
+options_getitem.mods = ()
+options_getitem.mutates_recv = False
+
+
+def decode_stub(ev, args, kwargs, node):
+    """bytes.decode(charset) with a client-chosen charset: text, UnicodeDecodeError or LookupError (A-bytes)"""
+    USED.add("A-bytes")
+    k = ev.st.choose([z3.BoolVal(True)] * 3, force_record=True)
+    if k == 1:
+        raise PyRaise("UnicodeDecodeError", None, getattr(node, "lineno", 0))
+    if k == 2:
+        raise PyRaise("LookupError", None, getattr(node, "lineno", 0))
+    return ev.st.fresh(Str, "decoded")
+
+
+def json_loads_stub(ev, args, kwargs, node):
+    """json.loads(str): a value, JSONDecodeError, a plain ValueError (integer literal beyond the digit limit of int())
+    or RecursionError (A-json)"""
+    USED.add("A-json")
+    k = ev.st.choose([z3.BoolVal(True)] * 4, force_record=True)
+    if k == 1:
+        raise PyRaise("JSONDecodeError", None, getattr(node, "lineno", 0))
+    if k == 2:
+        raise PyRaise("ValueError", None, getattr(node, "lineno", 0))
+    if k == 3:
+        raise PyRaise("RecursionError", None, getattr(node, "lineno", 0))
+    return VOpaque(z3.Const(ev.st.run.fresh_name("json"), opaque_sort("JSON")), "JSON")
+
+
+def str_of_exc(ev, args, kwargs, node):
+    return ev.st.fresh(Str, "message")
+
+
+def parse_multipart_stub(ev, recv, args, kwargs, node):
+    """Request._parse_multipart -> multipart_helper.parse_stream / parse_async_stream: FormData, MalformedMultipart or
+    RequestEntityTooLarge (the callee's own allowed set: contracts/c01.py parse_stream and the bounded decoder layer)"""
+    k = ev.st.choose([z3.BoolVal(True)] * 3, force_record=True)
+    if k == 1:
+        raise PyRaise("MalformedMultipart", None, getattr(node, "lineno", 0))
+    if k == 2:
+        raise PyRaise("RequestEntityTooLarge", None, getattr(node, "lineno", 0))
+    return ev.st.alloc(Obj("FormData", {}))
+
+
+parse_multipart_stub.mods = ()
+parse_multipart_stub.mutates_recv = False
+
+
+def parse_qsl_stub(ev, args, kwargs, node):
+    """urllib.parse.parse_qsl(str, keep_blank_values=True): a pair list, for every str (A-qsl)"""
+    USED.add("A-qsl")
+    return ev.st.alloc(Obj("Pairs", {}))
+
+
+def formdata_stub(ev, args, kwargs, node):
+    return ev.st.alloc(Obj("FormData", {}))
+
+
+def url_ctor_stub(ev, args, kwargs, node):
+    """URL(environ=...) / URL(scope=...): a URL, or ValueError from urlsplit (unbalanced IPv6 bracket in Host),
+    UnicodeDecodeError from the UTF-8 decoding of path / query, KeyError from _build_url (unknown scheme: server's fault,
+    excluded by A-wsgi-1 / A-asgi-1: the scheme is one of http/https/ws/wss)"""
+    USED.add("A-url-1")
+    k = ev.st.choose([z3.BoolVal(True)] * 3, force_record=True)
+    if k == 1:
+        raise PyRaise("ValueError", None, getattr(node, "lineno", 0))
+    if k == 2:
+        raise PyRaise("UnicodeDecodeError", None, getattr(node, "lineno", 0))
+    return ev.st.alloc(Obj("URL", {}))
+
+
+BODY_STUB_METHODS = {("Options", "get"): options_get, ("Options", "__contains__"): options_contains,
+                     ("Options", "__getitem__"): options_getitem}
+HTTP_ONLY = "only HTTP exceptions (4xx) escape: MalformedJSON / MalformedMultipart / UnsupportedMediaType / " \
+            "RequestEntityTooLarge / HTTPException(400)"
+
+
+def _body_contract(iface, name):
+    rel = WRQ if iface == "wsgi" else ARQ
+    self_t = ObjT(rel + ":Request", content_type=CT_T, body=Bytes)
+    common = dict(
+        file=rel, qualname="Request." + name, props=["C12"], params={"self": self_t},
+        stub_methods={**BODY_STUB_METHODS, ("%s:Request" % rel, "_parse_multipart"): parse_multipart_stub},
+        stubs={"self.body.decode": decode_stub, "data.decode": decode_stub, "(await self.body).decode": decode_stub,
+               "json.loads": json_loads_stub, "str": str_of_exc, "parse_qsl": parse_qsl_stub, "FormData": formdata_stub},
+        frame_check=False, assumptions=["A-bytes", "A-json", "A-qsl"], notes=HTTP_ONLY)
+    if name == "json":
+        return Contract(
+            id="%s.Request.json" % iface, **common,
+            raises={"MalformedJSON": "self.content_type.type == 'application/json'",
+                    "UnsupportedMediaType": "self.content_type.type != 'application/json'"},
+            ensures={"only_for_json": "self.content_type.type == 'application/json'"},
+            canaries={"never_returns_a_value": "False"})
+    return Contract(
+        id="%s.Request.form" % iface, **common,
+        raises={"MalformedMultipart": "self.content_type.type == 'multipart/form-data'",
+                "RequestEntityTooLarge": "self.content_type.type == 'multipart/form-data'",
+                "UnsupportedMediaType": "self.content_type.type != 'multipart/form-data' and "
+                                        "self.content_type.type != 'application/x-www-form-urlencoded'",
+                "HTTPException": "self.content_type.type == 'application/x-www-form-urlencoded'"},
+        ensures={"only_for_forms": "self.content_type.type == 'multipart/form-data' or "
+                                   "self.content_type.type == 'application/x-www-form-urlencoded'"},
+        canaries={"never_returns_a_value": "False"})
+
+
+def _url_contract(iface):
+    rel = WRQ if iface == "wsgi" else ARQ
+    fields = {"_environ": Opaque("Environ")} if iface == "wsgi" else {"_scope": Opaque("Scope")}
+    return Contract(
+        id="%s.HTTPConnection.url" % iface, file=rel, qualname="HTTPConnection.url", props=["C12"],
+        params={"self": ObjT(rel + ":HTTPConnection", **fields)}, stubs={"URL": url_ctor_stub},
+        frame_check=False, raises={"HTTPException": None}, ensures={}, assumptions=["A-url-1"],
+        canaries={"never_returns_a_value": "False"},
+        notes="a malformed Host header / non-UTF-8 URL is a 400, nothing else escapes")
+
+
+BODY_CONTRACTS = [_body_contract(i, n) for i in ("wsgi", "asgi") for n in ("json", "form")] + [_url_contract("wsgi"), _url_contract("asgi")]
+
+
 def register(reg):
     for c in (CONTENT_LENGTH, DATE):
         reg.add(c)
+    for c in BODY_CONTRACTS:
+        reg.add(c)
+    reg._compare_models.append(ct_compare)
